@@ -109,3 +109,23 @@ Definition rops_run (i : Z * list (Z * Z * Z * Z)) : list (Z * Z) * list (Z * Z)
   let addrs := map Z.of_nat (seq 0 (Z.to_nat n)) in
   (map (fun a => dep_get a ds) addrs, map (fun a => (minted_of 0 a minted, minted_of 1 a minted)) addrs).
 Definition rops_eqb (a b : list (Z * Z) * list (Z * Z)) : bool := zzl_eqb (fst a) (fst b) && zzl_eqb (snd a) (snd b).
+
+(* ---- computeLiquidityStakeRewardsForEpoch: status (0 done, 1 ErrInvalidRewards, 2 panic), aggregated znn / qsr credits,
+   burned (znn, qsr), minted to the contract (znn, qsr), number of entries left *)
+Definition liq_stake_in := (Z * Z * Z * bool * (Z * Z * Z * Z) * list (Z * Z * Z) * list (Z * Z * Z * Z * Z))%type.
+Definition liq_stake_out := (Z * list (Z * Z) * list (Z * Z) * (Z * Z) * (Z * Z) * Z)%type.
+Definition liq_stake_run (i : liq_stake_in) : liq_stake_out :=
+  let '(epoch, s, e, halted, bals, ts, l) := i in
+  let '(bz, bq, xz, xq) := bals in
+  let ts' := map (fun q => let '(t, zp, qp) := q in mkLtuple t zp qp) ts in
+  let l' := map (fun q => let '(t, st, rv, wa, a) := q in mkLentry t st rv wa a) l in
+  match liq_stake_rewards epoch s e halted bz bq xz xq ts' l' with
+  | Ok (Done r) => (0, aggregate (map (fun c => (fst c, fst (snd c))) (lq_credits r)),
+                       aggregate (map (fun c => (fst c, snd (snd c))) (lq_credits r)),
+                       lq_burn r, lq_mint r, Z.of_nat (length (lq_left r)))
+  | Ok Failed => (1, [], [], (0, 0), (0, 0), 0)
+  | _ => (2, [], [], (0, 0), (0, 0), 0)
+  end.
+Definition liq_stake_eqb (a b : liq_stake_out) : bool :=
+  let '(s1, c1, d1, b1, m1, n1) := a in let '(s2, c2, d2, b2, m2, n2) := b in
+  (s1 =? s2) && zzl_eqb c1 c2 && zzl_eqb d1 d2 && zz_eqb11 b1 b2 && zz_eqb11 m1 m2 && (n1 =? n2).
